@@ -79,7 +79,11 @@ def is_protonated(group, names):
 def supported(ff, state):
     """All atoms of the state's topology resolvable, integral charge."""
     table = ff_ref.builtin(ff.lower())
-    want = corpus.expected_atoms(state)
+    try:
+        want = corpus.expected_atoms(state)
+    except KeyError:
+        # the topology files define no such state: nothing can support it
+        return False
     have = table.get(state, {})
     if any(a not in have for a in want):
         return False
